@@ -116,3 +116,134 @@ CONTRACTS = [
                   "constructors of the control classes run natively (their contracts: c05_conditions)",
              trusted=["Control / Rule / ControlAction constructors store their arguments (contracts/c05_conditions.py)"]),
 ]
+
+
+# ---------------------------------------------------------------------------- _get_cv_controls / _get_pump_controls / _initialize_name_id_maps
+
+def _model2():
+    wn = wntr.network.WaterNetworkModel()
+    wn.add_reservoir("R", base_head=50.0)
+    for i in range(6):
+        wn.add_junction("J%d" % i, base_demand=0.001, elevation=0.0)
+    wn.add_pipe("plain", "R", "J0", length=10.0, diameter=0.3, roughness=100.0)
+    wn.add_pipe("cv_a", "J0", "J1", length=10.0, diameter=0.3, roughness=100.0, check_valve=True)
+    wn.add_pipe("plain2", "J1", "J2", length=10.0, diameter=0.3, roughness=100.0)
+    wn.add_pipe("cv_b", "J2", "J3", length=10.0, diameter=0.3, roughness=100.0, check_valve=True)
+    wn.add_curve("pc", "HEAD", [(0.0, 30.0), (0.05, 20.0), (0.1, 5.0)])
+    wn.add_pump("head_pump", "J3", "J4", pump_type="HEAD", pump_parameter="pc")
+    wn.add_pump("power_pump", "J4", "J5", pump_type="POWER", pump_parameter=5000.0)
+    return wn
+
+
+def _internal_shape(c, cond_cls, element, value, priority):
+    a = c._then_actions[0]
+    return (type(c) is C.Control and type(c._condition) is cond_cls and len(c._then_actions) == 1 and len(c._else_actions) == 0
+            and type(a) is C._InternalControlAction and a._target_obj is element and a._internal_attr == "_internal_status" and a._property_attr == "status"
+            and LinkStatus(a._value) == value and c._priority == priority and c._control_type == _ControlType.postsolve
+            and element in c._condition.requires())
+
+
+def _cv_case():
+    def build(cx):
+        wn = _model2()
+        sim = cx.obj(WNTRSimulator, _wn=wn)
+        cx.target(WNTRSimulator._get_cv_controls, sim)
+
+        def post(out):
+            if not out.returned:
+                return []
+            got = list(out.value)
+            by = {}
+            for c in got:
+                by.setdefault(c._then_actions[0]._target_obj.name, []).append(c)
+            ok = sorted(by) == ["cv_a", "cv_b"]
+            shapes = True
+            for nm, cs in by.items():
+                p = wn.get_link(nm)
+                shapes = shapes and len(cs) == 2 and \
+                    any(_internal_shape(c, C._CloseCVCondition, p, LinkStatus.Closed, ControlPriority.very_high) for c in cs) and \
+                    any(_internal_shape(c, C._OpenCVCondition, p, LinkStatus.Open, ControlPriority.very_low) for c in cs)
+            return [("exactly_the_check_valve_pipes_get_controls", ok),
+                    ("each_gets_close_first_and_open_last_on_its_own_pipe_after_the_solve", bool(shapes))]
+        cx.ensure(post)
+    return Case("two_check_valve_pipes_among_plain_pipes", build, crosscheck=False)
+
+
+def _pump_case(kind, priority):
+    """kind: none | Control | Rule - a user control that changes a pump's base_speed gets a status-OPEN companion of its class, condition and priority"""
+    def build(cx):
+        wn = _model2()
+        hp, pp = wn.get_link("head_pump"), wn.get_link("power_pump")
+        cond = C.SimTimeCondition(wn, ">=", 7200)
+        ctl = None
+        if kind != "none":
+            act = C.ControlAction(pp, "base_speed", 0.8)
+            ctl = C.Control(cond, act, priority=priority) if kind == "Control" else C.Rule(cond, [C.ControlAction(wn.get_link("plain"), "status", LinkStatus.Open), act], priority=priority, name="r")
+            wn.add_control("speed", ctl)
+        sim = cx.obj(WNTRSimulator, _wn=wn)
+        cx.target(WNTRSimulator._get_pump_controls, sim)
+
+        def post(out):
+            if not out.returned:
+                return []
+            got = list(out.value)
+            comp = [c for c in got if type(c._then_actions[0]) is not C._InternalControlAction]
+            internal = [c for c in got if type(c._then_actions[0]) is C._InternalControlAction]
+            posts = [("one_companion_per_speed_action", len(comp) == (0 if kind == "none" else 1))]
+            if comp:
+                c = comp[0]
+                a = c._then_actions[0]
+                posts.append(("companion_opens_that_pump_with_the_class_condition_and_priority_of_the_user_control",
+                              type(c) is type(ctl) and c._condition is cond and len(c._then_actions) == 1 and len(c._else_actions) == 0 and a._target_obj is pp
+                              and a._attribute == "status" and LinkStatus(a._value) == LinkStatus.Open and c._priority == priority))
+            hps = [c for c in internal if c._then_actions[0]._target_obj is hp]
+            pps = [c for c in internal if c._then_actions[0]._target_obj is pp]
+            posts.append(("head_pump_gets_its_close_first_and_open_last_conditions", len(hps) == 2 and
+                          any(_internal_shape(c, C._CloseHeadPumpCondition, hp, LinkStatus.Closed, ControlPriority.very_high) for c in hps) and
+                          any(_internal_shape(c, C._OpenHeadPumpCondition, hp, LinkStatus.Open, ControlPriority.very_low) for c in hps)))
+            posts.append(("power_pump_gets_its_close_first_and_open_last_conditions", len(pps) == 2 and len(internal) == 4 and
+                          any(_internal_shape(c, C._ClosePowerPumpCondition, pp, LinkStatus.Closed, ControlPriority.very_high) for c in pps) and
+                          any(_internal_shape(c, C._OpenPowerPumpCondition, pp, LinkStatus.Open, ControlPriority.very_low) for c in pps)))
+            return posts
+        cx.ensure(post)
+    return Case("speed_control=%s%s" % (kind, "" if kind == "none" else ",priority=" + priority.name), build, crosscheck=False)
+
+
+class _Lists(NativeModel):
+    """the model as _initialize_name_id_maps sees it: links() and nodes() as (name, element) lists"""
+
+    def __init__(self, wn):
+        self.wn = wn
+
+    def links(self):
+        return list(self.wn.links())
+
+    def nodes(self):
+        return list(self.wn.nodes())
+
+
+def _id_maps_case():
+    def build(cx):
+        wn = _model2()
+        sim = cx.obj(WNTRSimulator, _wn=_Lists(wn), _link_name_to_id={}, _link_id_to_name={}, _node_name_to_id={}, _node_id_to_name={})
+        cx.target(WNTRSimulator._initialize_name_id_maps, sim)
+
+        def post(out):
+            if not out.returned:
+                return []
+            f = sim.fields
+            ln, nn = wn.link_name_list, wn.node_name_list
+            return [("links_are_numbered_0_to_n_minus_1_both_ways", sorted(f["_link_name_to_id"]) == sorted(ln) and sorted(f["_link_name_to_id"].values()) == list(range(len(ln)))
+                     and all(f["_link_id_to_name"][i] == n for n, i in f["_link_name_to_id"].items()) and len(f["_link_id_to_name"]) == len(ln)),
+                    ("nodes_are_numbered_0_to_n_minus_1_both_ways", sorted(f["_node_name_to_id"]) == sorted(nn) and sorted(f["_node_name_to_id"].values()) == list(range(len(nn)))
+                     and all(f["_node_id_to_name"][i] == n for n, i in f["_node_name_to_id"].items()) and len(f["_node_id_to_name"]) == len(nn))]
+        cx.ensure(post)
+    return Case("seven_nodes_six_links", build, crosscheck=False)
+
+
+CONTRACTS += [
+    Contract("wntr.sim.core:WNTRSimulator._get_cv_controls", P, [_cv_case()], note="a real model with two check-valve pipes among plain pipes and pumps"),
+    Contract("wntr.sim.core:WNTRSimulator._get_pump_controls", P, [_pump_case("none", ControlPriority.medium)] + [_pump_case(k, p) for k in ("Control", "Rule") for p in ControlPriority],
+             note="enumerated over control class x priority; one head pump and one constant-power pump"),
+    Contract("wntr.sim.core:WNTRSimulator._initialize_name_id_maps", ["C09", "C01"], [_id_maps_case()]),
+]
